@@ -30,6 +30,7 @@ static const struct { const char *name, *bytes; int kind; } ops[] = {
 	{"j", "j", K_EDIT},
 	{"w", "w", K_EDIT},
 	{"dd", "dd", K_EDIT},
+	{":w nf", ":w nf\n", K_EDIT},		/* a write changes no text and no history (an unnamed buffer adopts the name) */
 };
 #define NOPS ((int) (sizeof(ops) / sizeof(ops[0])))
 static int nops_used;
@@ -47,6 +48,7 @@ static const struct { const char *name, *bytes; int kind; } ops_ex[] = {
 	{"1d|'zd", "1d|'zd\n", K_EDIT},
 	{"99d", "99d\n", K_EDIT},
 	{"1,2d|1pu", "1,2d|1pu\n", K_EDIT},
+	{"w nf", "w nf\n", K_EDIT},
 };
 #define NOPS_EX ((int) (sizeof(ops_ex) / sizeof(ops_ex[0])))
 static int exmode;
@@ -177,21 +179,26 @@ static void run_config(int c, int depth, int n)
 {
 	char *argv[] = {"vi", "-v", "f", NULL};
 	char *argv_ex[] = {"vi", "-s", "-e", "f", NULL};
-	static const char *bufs[] = {"ab a\nsecond line a\nthird\nfourth a b\nfifth\n", "a\n", "one a\n\n  two\n"};
+	static const char *bufs[] = {"ab a\nsecond line a\nthird\nfourth a b\nfifth\n", "a\n", "one a\n\n  two\n", NULL};
+	char *argv_nf[] = {"vi", "-v", NULL};		/* configuration 3: no file name */
+	char *argv_ex_nf[] = {"vi", "-s", "-e", NULL};
 	cfg = c;
 	nops_used = n;
 	exmode = c >= 10;
 	if (exmode)
 		c -= 10;
 	vfs_n = 0;
-	vfs_put("f", bufs[c], -1);
+	if (bufs[c])
+		vfs_put("f", bufs[c], -1);
 	setenv("LINES", "24", 1);
 	setenv("COLUMNS", "60", 1);
 	setenv("EXINIT", "se wa", 1);	/* filters are refused on a modified buffer unless writeany is set */
 	snprintf(cfg_name, sizeof(cfg_name), "%sbuf%d", exmode ? "ex/" : "", c);
 	nx_bound = depth;
 	snprintf(nx_cfg_args, sizeof(nx_cfg_args), "cfg=%d", exmode ? c + 10 : c);
-	if (exmode)
+	if (!bufs[c])
+		nx_run(exmode ? 3 : 2, exmode ? argv_ex_nf : argv_nf);
+	else if (exmode)
 		nx_run(4, argv_ex);
 	else
 		nx_run(3, argv);
@@ -219,6 +226,8 @@ int main(int argc, char **argv)
 	run_config(0, d - 1, NOPS);	/* depth d-1 over everything */
 	run_config(1, d - 1, 12);
 	run_config(2, d - 1, 12);
+	run_config(3, d - 1, NOPS);	/* no file name: the buffer is empty and adopts the name of the first write */
+	run_config(13, d - 1, NOPS_EX);
 	run_config(10, d, NOPS_EX);	/* ex mode */
 	run_config(12, d - 1, NOPS_EX);
 	nv_stat("max:depth", d);
